@@ -96,6 +96,8 @@ def episode(r, nops, src="rand", reload=True):
                     m = rlen(r); ops.append({"op": "resize", "n": m, "v": r.random() < 0.5}); n = m
                 elif j == 3:
                     b = rbits(r, r.choice([1, 2, 63, 64, 65, 70])); ops.append({"op": "extend", "bits": b}); n += len(b)
+                    if r.random() < 0.3:
+                        ops[-1]["slack"] = r.choice([1, 64, 1000])
                 else:
                     for _ in range(r.choice([1, 3, 64])):
                         ops.append({"op": r.choice(["pop", "pop", "push"]), "b": r.random() < 0.5})
@@ -126,7 +128,7 @@ def episode(r, nops, src="rand", reload=True):
                 to = r.choice(["boxed", "atomic"]) if form == "vec" else r.choice(["vec", "atomic_boxed"])
                 ops.append({"op": "into", "to": to}); form = to
             else:
-                mode = r.choice(["full", "eps", "mmap"])
+                mode = r.choice(["full", "eps", "eps8", "mmap"])
                 ops.append({"op": "reload", "mode": mode}); form = form if mode == "full" else "ro"
         elif form == "ro":
             k = r.random()
@@ -242,7 +244,7 @@ def reload_episodes(seed, count):
         if any(o["op"] == "into" for o in ep["ops"]):
             ops = ops[:1]
         n = 300
-        mode = ("full", "eps", "mmap")[k % 3]
+        mode = ("full", "eps", "mmap", "eps8")[k % 4]
         ops += full_battery(n if k % 2 else 64)
         if r.random() < 0.3:
             ops.append({"op": "into", "to": "boxed"})
@@ -255,7 +257,7 @@ def reload_episodes(seed, count):
     # fixed corner cases: empty vector, exact word multiples, all ones
     for n in (0, 1, 63, 64, 65, 128, 192):
         for v in (False, True):
-            for mode in ("full", "eps", "mmap"):
+            for mode in ("full", "eps", "eps8", "mmap"):
                 eps.append({"fam": "bitvec", "src": "reload", "ops": [
                     {"op": "with_value", "n": n, "v": v}] + full_battery(n) + [{"op": "reload", "mode": mode}] + full_battery(n)})
     return eps
@@ -272,6 +274,8 @@ def space_episodes(seed, count):
             ms = {"op": "a_mem_size"} if c["op"].startswith("a_") else {"op": "mem_size"}
             eps.append({"fam": "bitvec", "src": "recipe", "ops": [c, ms]})
         if n <= 300:
+            eps.append({"fam": "bitvec", "src": "recipe", "ops": [{"op": "collect", "bits": [True] * n, "slack": 5000},
+                                                                   {"op": "mem_size"}, {"op": "iter"}]})
             eps.append({"fam": "bitvec", "src": "recipe", "ops": [{"op": "collect", "bits": [True] * n}, {"op": "mem_size"},
                                                                    {"op": "into", "to": "boxed"}, {"op": "mem_size"},
                                                                    {"op": "into", "to": "atomic_boxed"}, {"op": "a_mem_size"}]})
@@ -284,6 +288,8 @@ def space_episodes(seed, count):
                 ops += [{"op": "push", "b": r.random() < 0.5} for _ in range(r.choice([1, 2, 63, 64, 65, 130]))]
             elif j == 1:
                 ops.append({"op": "extend", "bits": rbits(r, r.choice([1, 63, 64, 65, 129]))})
+                if r.random() < 0.5:    # an iterator whose size hint is larger than what it yields
+                    ops[-1]["slack"] = r.choice([1, 64, 1000, 100000])
             elif j == 2:
                 ops.append({"op": "resize", "n": rlen(r, 600) + 300, "v": r.random() < 0.5})   # may shrink: the spec tracks it
             else:
@@ -322,7 +328,7 @@ def ood_episodes(seed, count):
                         {"op": "a_swap", "i": i, "b": False}]
             ops += [{"op": "a_iter"}, {"op": "a_count_ones"}]
             eps.append({"fam": "bitvec", "src": "ood", "ops": ops})
-        for mode in ("eps", "mmap"):
+        for mode in ("eps", "eps8", "mmap"):
             ops = [{"op": "with_value", "n": n, "v": True}, {"op": "reload", "mode": mode}]
             for i in bad:
                 ops += [{"op": "get", "i": i}, {"op": "index", "i": i}]
